@@ -8,7 +8,7 @@ from . import C07
 
 META = {
     "level": "other",
-    "explanation": "Effect analysis: (R1) no method of any Construct subclass or expression class, other than the construction-time methods __init__/__setstate__/__copy__, writes an attribute of self, mutates a container reached from self, or calls setattr/delattr on self; (R2) no function in the package declares `global`, rebinds a module-level name, or mutates a module-level or class-level container (frozen: the three documented print-setting functions, which only influence __str__); (R3) each public call builds a fresh context (shared with C07.R3); (R4) parse/parse_file/build/build_file delegate to parse_stream/build_stream with the caller's keyword arguments, a fresh in-memory stream or a file opened in the right mode, and return the delegate's result. R1+R2 establish the absence of shared mutable state, which is the only way call history or thread schedules could influence a result. (R5) start-offset independence: no read length, written data, write length or relative seek of any _parse/_build depends on the absolute stream position once tells are valued by the position algebra (only position differences do). (R6) substreams translate positions by the outer offset of the region's first byte in tell and absolute seeks only (shared with C08.R3). (R7) no attribute of a construct is bound (in __init__ or anywhere else) to a stateful helper object -- stream, file, generator, itertools iterator -- whose state would carry over between calls.",
+    "explanation": "Effect analysis (R8: no protocol method writes into the object it was given -- the caller's value is read only): (R1) no method of any Construct subclass or expression class, other than the construction-time methods __init__/__setstate__/__copy__, writes an attribute of self, mutates a container reached from self, or calls setattr/delattr on self; (R2) no function in the package declares `global`, rebinds a module-level name, or mutates a module-level or class-level container (frozen: the three documented print-setting functions, which only influence __str__); (R3) each public call builds a fresh context (shared with C07.R3); (R4) parse/parse_file/build/build_file delegate to parse_stream/build_stream with the caller's keyword arguments, a fresh in-memory stream or a file opened in the right mode, and return the delegate's result. R1+R2 establish the absence of shared mutable state, which is the only way call history or thread schedules could influence a result. (R5) start-offset independence: no read length, written data, write length or relative seek of any _parse/_build depends on the absolute stream position once tells are valued by the position algebra (only position differences do). (R6) substreams translate positions by the outer offset of the region's first byte in tell and absolute seeks only (shared with C08.R3). (R7) no attribute of a construct is bound (in __init__ or anywhere else) to a stateful helper object -- stream, file, generator, itertools iterator -- whose state would carry over between calls.",
     "undecided": "Thread schedules as such are not explored; stream objects supplied by the caller are the caller's; Rebuffered (documented experimental) and debug.py are frozen exceptions.",
     "trusted_base": ["python ast (3.12)", "sa.summ summariser (write events SELFWRITE/STORE/MUT/ATTRSET/GLOBALWRITE)"],
     "assumptions": ["aliasing through local names is followed by substitution; aliasing through containers returned by opaque calls is not"],
@@ -265,6 +265,24 @@ def run(ctx):
                     continue
                 ctx.ob("C17.R7", fi, not why, "%s.%s keeps %s in self.%s: its state would carry over from one parse/build call to the next" % (ci.name, mname, why or "no stateful object", str(attr)), key="self.%s" % (attr,))
     ctx.floor("C17.R7", 100)
+
+    # ---------------------------------------------------------------- R8 the value handed to a protocol method is the caller's: it is read, never written
+    # (a build that plants keys in the mapping it was given answers the next build of that mapping -- by this or another construct -- differently)
+    R8_FROZEN = {("NamedTuple._decode", "DELITEM"): "the object is the container the inner Struct has just parsed (fresh, owned by this call); its _io entry is dropped before the tuple is made"}
+    n8 = 0
+    for fi8, cls8 in protocol_functions(M, names=("_parse", "_build", "_sizeof", "_actualsize", "_decode", "_encode", "_validate")):
+        if not has_param(fi8, "obj") or fi8.relpath.endswith("debug.py"):
+            continue
+        n8 += 1
+        seen8 = {}
+        for p in paths_of(ctx, fi8, cls8):
+            for e in p.events:
+                if e.kind in ("STORE", "MUT", "DELITEM", "ATTRSET", "SETATTR", "DELATTR") and not e.depth and e.a.get("base") is not None and root_of(e["base"]) == OBJ and e.a.get("method") not in ("copy",):
+                    seen8[id(e.node)] = e
+        bad8 = [e for e in seen8.values() if (fi8.qual, e.kind) not in R8_FROZEN]
+        ctx.ob("C17.R8", fi8, not bad8, "%s leaves the object it was given untouched%s" % (fi8.qual, (": " + bad8[0].show()[:120]) if bad8 else ""), key="obj untouched",
+               detail=next((R8_FROZEN[(fi8.qual, e.kind)] for e in seen8.values() if (fi8.qual, e.kind) in R8_FROZEN), None))
+    ctx.floor("C17.R8", 80)
 
     # positive control
     ctl = control_model(
